@@ -230,15 +230,26 @@ def run_sound(scn, stats):
     feats = set()
     defn, drv = common.build(scn, stats)
     drv.observers.append(fo)
+    dw = common.DupWatch()
+    drv.observers.append(dw)
     r = sched.Run(drv, scn)
+    # known finding R1 (owned by C07) makes the engine offer a join twice; the provider then holds two actions
+    # for one execution record and what happens to the stale one is a consequence of R1: abandon the run there
+    stop = lambda rr: dw.dup  # noqa
     try:
-        r.run()
+        r.run(stop=stop)
+        if dw.dup:
+            stats.excluded["R1"] += 1
+            return
         if scn.get("rerun") and r.at_rest() and drv.status() == "failed" and fo.flow.unhandled and not fo.flow.fail_cmd:
             tasks = None if scn["rerun"] == 1 else [[t, rt, bool(scn["rerun"] == 3)] for t, rt in fo.flow.unhandled[:2]]
             r.step({"op": "rerun", "tasks": tasks})
             feats.add("rerun")
             r.outcomes = {}
-            r.finish()
+            r.finish(stop=stop)
+            if dw.dup:
+                stats.excluded["R1"] += 1
+                return
         if drv.status() in provider.TERMINAL:
             r.step({"op": "output"})
             r.step({"op": "poll"})
